@@ -810,15 +810,20 @@ class ManifestRecursiveLoader:
                                     for x in self.loaded_manifests)):
                             continue
 
-                        # do the rename!
-                        self.loaded_manifests[new_mpath] = m
+                        # do the rename! (the Manifest keeps its place
+                        # in the load order, which decides the order
+                        # of saving within one directory)
+                        items = list(self.loaded_manifests.items())
+                        self.loaded_manifests.clear()
+                        for k, v in items:
+                            self.loaded_manifests[
+                                new_mpath if k == mpath else k] = v
                         # (the top-level Manifest must be known under
                         # its new name before it is written, or it
                         # would be saved unsigned)
                         if mpath == self.top_level_manifest_filename:
                             self.top_level_manifest_filename = new_mpath
                         self.save_manifest(new_mpath)
-                        del self.loaded_manifests[mpath]
                         os.unlink(os.path.join(self.root_directory,
                                                mpath))
                         renamed_manifests[mpath] = new_mpath
